@@ -38,7 +38,7 @@ fi
 dw=pass; [ $w -ne 0 ] && dw=fail; dwo=pass; [ $wo -ne 0 ] && dwo=fail
 chk=MISSED
 VERIF_REPO="$S/with" VERIF_NO_EVIDENCE=1 "$VERIF/check" "$ID" quick >"$S/out.log" 2>"$S/err.log"; rc=$?
-if [ $rc -eq 1 ] && grep -q "^VIOLATION property=$ID " "$S/out.log"; then chk=CAUGHT; fi
-clause=$(grep -m1 -A1 '^VIOLATION' "$S/out.log" | tail -1 | sed 's/^ *//')
+if [ $rc -eq 1 ] && grep -a -q "^VIOLATION property=$ID " "$S/out.log"; then chk=CAUGHT; fi
+clause=$(grep -a -m1 -A1 '^VIOLATION' "$S/out.log" | tail -1 | sed 's/^ *//')
 echo "SEED $(basename $D) prop=$ID tests=$tests demo_with=$dw demo_without=$dwo check=$chk rc=$rc | $clause"
 [ "$tests" = ok ] && [ $dw = fail ] && [ $dwo = pass ] || { tail -5 "$S/demo.log"; }
